@@ -308,6 +308,11 @@ func newlineTests(c *Ctx, rule string, fns []string) {
 			// other shapes of the same test (a flag variable, an index loop over the clusters ...): c11text.go
 			found = c11NewlineTestAnyShape(c, rule, name, fi)
 		}
+		if found == 0 && rule == "C19.h" {
+			// other shapes of the same loop (an index loop over the clusters, a test behind a flag or a predicate helper
+			// that the syntactic search does not follow): the branches of the supergraph that decide "newline" (c19n.go)
+			found = c19NewlineTestsInFlow(c, rule, name, fi)
+		}
 		if found == 0 {
 			c.undecided(rule, name+"/newline test", fi.Decl.Pos(), "no newline test on the clusters of vaxis.Characters found")
 		}
@@ -392,4 +397,125 @@ func c19FlatStmts(list []ast.Stmt) []ast.Stmt {
 		}
 	}
 	return out
+}
+
+// c19NewlineTestsInFlow: the newline tests of the function as the branch conditions of its supergraph that decide
+// whether the cluster is a newline (the recogniser of rule C19.n), each classified like the syntactic ones.
+func c19NewlineTestsInFlow(c *Ctx, rule, name string, fi *FuncInfo) int {
+	var p *c19Pkg
+	for _, sh := range c19AnchorPkgs {
+		if pk := c.P.Pkg(sh); pk != nil && pk == fi.Pkg {
+			p = c19LoadPkg(c, sh)
+		}
+	}
+	if p == nil {
+		return 0
+	}
+	info := p.info
+	fl := c19NewFlow(c, fi, nil, p.allow)
+	seen := map[ast.Expr]bool{}
+	found := 0
+	for _, b := range fl.blks {
+		if b.cnd == nil || b.cnd.Tag != nil || b.cnd.Alts != nil {
+			continue
+		}
+		var tests []ast.Expr
+		c19With(b.fr, func() { tests = c19NLTestExprs(fl, b.fr, b.cnd.Expr, 0) })
+		for _, t := range tests {
+			if seen[t] {
+				continue
+			}
+			seen[t] = true
+			found++
+			verdict, why := classifyNewlineTest(info, t)
+			key := name + "/line break recognised by containment of a newline in the cluster"
+			switch verdict {
+			case "ok":
+				c.ok(rule, key, t.Pos(), "%s", why)
+			case "bad":
+				c.bad(rule, key, t.Pos(), "%s: CR LF is a single grapheme cluster (\"\\r\\n\"), so a text with CRLF line terminators is laid out without line breaks", why)
+			default:
+				c.undecided(rule, key, t.Pos(), "unrecognised form of the newline test: %s", types.ExprString(t))
+			}
+		}
+	}
+	return found
+}
+
+// c19NLTestExprs: the elementary newline tests (calls, comparisons, "\n" || "\r\n" enumerations) that a condition
+// consults, through negation, conjuncts, flag variables and predicate helpers. Call in the alias context of the node.
+func c19NLTestExprs(fl *c19Flow, fr *c19Frame, e ast.Expr, depth int) []ast.Expr {
+	info := fl.info
+	e = unparen(e)
+	if depth > 5 || e == nil {
+		return nil
+	}
+	switch t := e.(type) {
+	case *ast.UnaryExpr:
+		if t.Op == token.NOT {
+			return c19NLTestExprs(fl, fr, t.X, depth+1)
+		}
+	case *ast.BinaryExpr:
+		switch t.Op {
+		case token.LAND, token.LOR:
+			if t.Op == token.LOR && c19NLAtom(fl, fr, t, 0) != 0 {
+				if _, isBin := unparen(t.X).(*ast.BinaryExpr); isBin {
+					return []ast.Expr{t} // an enumeration of line terminators: judged as a whole
+				}
+			}
+			return append(c19NLTestExprs(fl, fr, t.X, depth+1), c19NLTestExprs(fl, fr, t.Y, depth+1)...)
+		case token.EQL, token.NEQ:
+			if c19IsBoolType(info.TypeOf(t.X)) {
+				return append(c19NLTestExprs(fl, fr, t.X, depth+1), c19NLTestExprs(fl, fr, t.Y, depth+1)...)
+			}
+		}
+		if c19NLAtom(fl, fr, t, 0) != 0 {
+			return []ast.Expr{t}
+		}
+	case *ast.CallExpr:
+		if c19NLAtom(fl, fr, t, 0) == 0 {
+			return nil
+		}
+		if c19MentionsNewline(info, t) {
+			return []ast.Expr{t}
+		}
+		if ret, hfr, bind := c19PureHelper(info, t); ret != nil {
+			oldC, oldB := c19Ctx, c19Bind
+			c19Ctx, c19Bind = hfr, bind
+			c19PureDepth++
+			out := c19NLTestExprs(fl, hfr, ret, depth+1)
+			c19PureDepth--
+			c19Ctx, c19Bind = oldC, oldB
+			return out
+		}
+	case *ast.Ident:
+		if c19NLAtom(fl, fr, t, 0) == 0 || fr == nil || fr.fi == nil {
+			return nil
+		}
+		v := info.ObjectOf(t)
+		var out []ast.Expr
+		is := func(x ast.Expr) bool {
+			id, ok := unparen(x).(*ast.Ident)
+			return ok && info.ObjectOf(id) == v
+		}
+		ast.Inspect(fr.fi.Decl, func(m ast.Node) bool {
+			switch st := m.(type) {
+			case *ast.AssignStmt:
+				for i, lh := range st.Lhs {
+					if is(lh) && len(st.Lhs) == len(st.Rhs) {
+						out = append(out, c19NLTestExprs(fl, fr, st.Rhs[i], depth+1)...)
+					}
+				}
+			case *ast.ValueSpec:
+				for i, nm := range st.Names {
+					if is(nm) && len(st.Values) == len(st.Names) {
+						out = append(out, c19NLTestExprs(fl, fr, st.Values[i], depth+1)...)
+					}
+				}
+			}
+			return true
+		})
+		return out
+	}
+	return nil
 }
